@@ -47,6 +47,17 @@ def fingerprint(env, ds):
     return out
 
 
+def canon(fp):
+    """forget the ORDER of dimensions (a crop sows arguments sorted by name): cells keyed by label sets"""
+    out = {"dims": {n: tuple(sorted(d)) for n, d in fp["dims"].items()}, "coords": fp["coords"],
+           "attrs": fp["attrs"], "cells": {}}
+    for key, v in fp["cells"].items():
+        n, labs = key[0], key[1:]
+        dims = fp["dims"][n]
+        out["cells"][(n,) + tuple(sorted(zip(dims, labs)))] = v
+    return out
+
+
 def same_fp(a, b):
     if a["dims"] != b["dims"] or a["coords"] != b["coords"]:
         return False
